@@ -593,7 +593,7 @@ func RunHistory(st *PState, pc *PCase, obs PObserver) (class, msg string, at int
 		case "shrink":
 			ev.Panic = call(func() { ev.Delta = p.Shrink() })
 		case "reset":
-			var data []byte
+			var data, own []byte
 			l := op.B
 			mode := op.A
 			if st.BufferSize > 1<<22 && mode >= 3 {
@@ -623,6 +623,26 @@ func RunHistory(st *PState, pc *PCase, obs PObserver) (class, msg string, at int
 						tail[j] = st.Poison ^ byte(j*7)
 					}
 				}
+			case 5:
+				// the slice comes from the parser's own PeekAt (the caller
+				// keeps the tail of what is buffered): legal, and the source
+				// overlaps the buffer that Reset is about to fill
+				pk, ok := p.(interface {
+					PeekAt(n int, off int64) ([]byte, error)
+				})
+				if !ok || st.Len() == 0 {
+					break
+				}
+				x := st.Off + int64(op.C)%st.Len()
+				var q []byte
+				if pv := call(func() { q, _ = pk.PeekAt(l, x) }); pv != nil {
+					break
+				}
+				if l < len(q) {
+					q = q[:l]
+				}
+				data = q
+				own = append([]byte(nil), q...) // the content before the call
 			case 4:
 				l = st.BufferSize + 1 + op.B%5
 				src := st.take(int64(l))
@@ -634,6 +654,9 @@ func RunHistory(st *PState, pc *PCase, obs PObserver) (class, msg string, at int
 				ev.ResetOversize = true
 			}
 			ev.Given = data
+			if own != nil {
+				ev.Given = own
+			}
 			ev.Panic = call(func() { ev.Err = p.Reset(data) })
 		case "probe":
 			var x int64
@@ -786,7 +809,9 @@ func (st *PState) finish(ev *PEvent, obs PObserver) (class, msg string, stop boo
 				break
 			}
 			st.Fed = append(st.Fed[:0], ev.Given...)
-			st.cursor += len(ev.Given)
+			if op.A != 5 {
+				st.cursor += len(ev.Given)
+			}
 			if st.cursor > len(st.stream) {
 				st.cursor = len(st.stream)
 			}
@@ -911,6 +936,9 @@ func GenOps(r *rand.Rand, n int, w HWeights) []POp {
 			op = POp{K: "reset", A: 0}
 		case k < w.Write+w.ReadFrom+w.Parse+w.ParseNTL+w.ParseNil+w.Shrink+w.Reset+w.ResetData:
 			op = POp{K: "reset", A: 1 + r.Intn(4), B: r.Intn(1 + r.Intn(400)), C: r.Intn(20)}
+			if r.Intn(6) == 0 {
+				op.A, op.C = 5, r.Intn(1000)
+			}
 		case k < w.Write+w.ReadFrom+w.Parse+w.ParseNTL+w.ParseNil+w.Shrink+w.Reset+w.ResetData+w.Probe:
 			op = POp{K: "probe", A: r.Intn(12), B: r.Intn(1 + r.Intn(12)), C: r.Intn(3) | r.Intn(1000)<<2}
 			if r.Intn(6) == 0 {
